@@ -244,8 +244,39 @@ def _ratfun_method(self, interp, name, args, kwargs, node):
     return NotImplemented
 
 
+class RatPart:
+    """x.numerator / x.denominator of a rational-function symbol: only their quotient is known (it is x, or 1/x)."""
+
+    def __init__(self, of, which):
+        self.of, self.which = of, which
+
+    def __repr__(self):
+        return "%s(%r)" % (self.which, self.of)
+
+    def a_binop(self, interp, op, other, reflected, node):
+        if op is ast.Div and isinstance(other, RatPart) and other.of is self.of and other.which != self.which:
+            top = other if reflected else self
+            return self.of if top.which == "numerator" else RatFun(self.of.den, self.of.num)
+        return NotImplemented
+
+
+def _ratfun_getattr(self, interp, name, node):
+    if name in ("numerator", "denominator"):
+        return RatPart(self, name)
+    return NotImplemented
+
+
+def ratpart_fraction(args):
+    """Fraction(a, b) of the two parts of one symbol: the symbol or its reciprocal; NotImplemented otherwise."""
+    if len(args) == 2 and all(isinstance(a, RatPart) for a in args) and args[0].of is args[1].of and args[0].which != args[1].which:
+        r = args[0].of
+        return r if args[0].which == "numerator" else RatFun(r.den, r.num)
+    return NotImplemented
+
+
 RatFun.a_fraction = _ratfun_fraction
 RatFun.a_method = _ratfun_method
+RatFun.a_getattr = _ratfun_getattr
 
 
 def _ratfun_compare(self, interp, op, other, reflected, node):
